@@ -36,6 +36,23 @@ def run(tier, wd):
                         c["conv"] = True
                         cases.append(c)
                         abstracts.append(a)
+    # two sub commands share one Go variable through the Ptr entry points (different defaults and environment lists): only the
+    # declarations of the command that is addressed count, whichever was declared first
+    nsib = 0
+    for typ in V.BUILTIN:
+        for role in ("opt", "arg"):
+            for envpat in V.env_patterns(1 if q else 2):
+                if V.base(typ) == "string" and "invalid" in envpat:
+                    continue
+                for clipat in V.cli_patterns(1, False):
+                    for sib in (1, 2):
+                        n += 1
+                        nsib += 1
+                        c, a = V.concrete(typ, role, True, V.DEFAULTS[typ][0], envpat, clipat, rnd, tag="_%d" % (n % 7))
+                        c["siblings"] = sib
+                        cases.append(c)
+                        abstracts.append(a)
+    rep.cov["shared_variable_cases"] = nsib
     rows = vc.run_cases(rep, wd, binpath, cases, abstracts, "c06")
     nontriv = 0
     for case, a, clean, dev, r in rows:
